@@ -141,6 +141,12 @@ type cworld struct {
 	stallSite string
 	stalled   chan struct{}
 	stallHit  bool
+
+	// abandon a request between its start and its lock request: Manager.Run at
+	// its first launch (keyed by the goroutine running Run), Updater.Run at the
+	// fetchOne of its only updater (keyed by the updater's name)
+	launchPlan map[int64]int
+	fetchPlan  map[string]int
 }
 
 func newCWorld(r *hx.Run, mode string) *cworld {
@@ -149,7 +155,7 @@ func newCWorld(r *hx.Run, mode string) *cworld {
 		inCall: map[int64]*caller{}, lastCall: map[int64]*caller{}, relOf: map[int64]*caller{},
 		rawLockG: map[int64]*rawThread{}, rawTryG: map[int64][2]int{}, rawRelG: map[int64]int{}, rawFired: map[int64]bool{}, rawAcq: map[int64]int{},
 		threads: map[int]*rawThread{}, rawGrants: map[int]*grant{}, manifests: map[int]*claircore.Manifest{},
-		keyNames: map[int]string{}, keyNos: map[string]int{}}
+		keyNames: map[int]string{}, keyNos: map[string]int{}, launchPlan: map[int64]int{}, fetchPlan: map[string]int{}}
 	switch mode {
 	case "updater":
 		w.inner = updater.NewLocalLockerForVerif()
@@ -242,7 +248,41 @@ func (w *cworld) acquiredKey(k int) {
 	}
 }
 
+// abandon cancels parent p from inside the code under test. mu not held.
+func (w *cworld) abandon(p int) {
+	w.mu.Lock()
+	defer w.mu.Unlock()
+	if w.parents[p].dead {
+		return
+	}
+	w.parents[p].cancel()
+	w.parents[p].dead = true
+	w.r.Op(fmt.Sprintf("cancel %d", p), "ok", true)
+	w.r.Count("caller:" + w.mode + ":abandoned-just-before-the-lock-request")
+}
+
 func (w *cworld) hook(site, key string) {
+	switch site {
+	case "manager.launch":
+		g := hx.GoID()
+		w.mu.Lock()
+		p, ok := w.launchPlan[g]
+		delete(w.launchPlan, g)
+		w.mu.Unlock()
+		if ok {
+			w.abandon(p)
+		}
+		return
+	case "updater.fetchone":
+		w.mu.Lock()
+		p, ok := w.fetchPlan[key]
+		delete(w.fetchPlan, key)
+		w.mu.Unlock()
+		if ok {
+			w.abandon(p)
+		}
+		return
+	}
 	if !strings.HasPrefix(site, "lock.") {
 		return
 	}
@@ -662,7 +702,7 @@ func (w *cworld) newRun() *crun {
 	return rn
 }
 
-func (w *cworld) startMrun(p int, keys []int, retention int) {
+func (w *cworld) startMrun(p int, keys []int, retention int, abandonAtLaunch bool) {
 	rn := w.newRun()
 	var ups []driver.Updater
 	for _, k := range keys {
@@ -683,6 +723,11 @@ func (w *cworld) startMrun(p int, keys []int, retention int) {
 	w.wg.Add(1)
 	go func() {
 		defer w.wg.Done()
+		if abandonAtLaunch {
+			w.mu.Lock()
+			w.launchPlan[hx.GoID()] = p
+			w.mu.Unlock()
+		}
 		out := hx.Guard(func() string { mgr.Run(ctx); return "" })
 		w.mu.Lock()
 		rn.returned, rn.panicked = true, out != ""
@@ -741,7 +786,7 @@ func (uStore) GetLatestUpdateOperations(context.Context) ([]udriver.UpdateOperat
 	return nil, nil
 }
 
-func (w *cworld) startUrun(p int, keys []int) {
+func (w *cworld) startUrun(p int, keys []int, abandonAtFetch bool) {
 	rn := w.newRun()
 	u, err := updater.New(context.Background(), &updater.Options{Store: uStore{}, Client: http.DefaultClient,
 		Locker: &tap{w: w, run: rn}, Factories: []udriver.UpdaterFactory{&uFactory{w: w, keys: keys}}})
@@ -751,6 +796,11 @@ func (w *cworld) startUrun(p int, keys []int) {
 		return
 	}
 	ctx := w.parents[p].ctx
+	if abandonAtFetch {
+		w.mu.Lock()
+		w.fetchPlan[w.keyNameLocked(keys[0])] = p
+		w.mu.Unlock()
+	}
 	w.wg.Add(1)
 	go func() {
 		defer w.wg.Done()
@@ -1084,6 +1134,18 @@ func (w *cworld) active() int {
 	return n
 }
 
+func (w *cworld) runsActive() int {
+	w.mu.Lock()
+	defer w.mu.Unlock()
+	n := 0
+	for _, rn := range w.runs {
+		if !rn.returned {
+			n++
+		}
+	}
+	return n
+}
+
 func subset(rnd *hx.Rand, nkeys int) []int {
 	var ks []int
 	for k := 0; k < nkeys; k++ {
@@ -1120,10 +1182,21 @@ func (w *cworld) randomOp(rnd *hx.Rand, nkeys int, nextTid *int) {
 			if rnd.Chance(1, 2) {
 				ret = 2
 			}
-			w.startMrun(p, subset(rnd, nkeys), ret)
+			// now and then the request is abandoned right after Run has taken
+			// its semaphore slot for the first updater (a parent nobody else uses)
+			if !w.parents[p].dead && rnd.Chance(1, 6) {
+				w.startMrun(w.newParent(false), subset(rnd, nkeys), ret, true)
+			} else {
+				w.startMrun(p, subset(rnd, nkeys), ret, false)
+			}
 			w.r.Count("op:manager-run")
 		default:
-			w.startUrun(p, subset(rnd, nkeys))
+			// … or, with nothing else going on, right before the only updater asks for its lock
+			if w.active() == 0 && w.runsActive() == 0 && rnd.Chance(1, 3) {
+				w.startUrun(w.newParent(false), []int{rnd.Intn(nkeys)}, true)
+			} else {
+				w.startUrun(p, subset(rnd, nkeys), false)
+			}
 			w.r.Count("op:updater-run")
 		}
 	case c < 55 && len(body) > 0:
@@ -1195,9 +1268,9 @@ func (w *cworld) startCall(rnd *hx.Rand, nkeys int, k int) {
 		}
 		w.startIndex(k, p)
 	case "manager":
-		w.startMrun(p, subset(rnd, nkeys), 2*rnd.Intn(2))
+		w.startMrun(p, subset(rnd, nkeys), 2*rnd.Intn(2), false)
 	default:
-		w.startUrun(p, subset(rnd, nkeys))
+		w.startUrun(p, subset(rnd, nkeys), false)
 	}
 }
 
